@@ -836,8 +836,14 @@ class World:
             code = v.__code__
             if v.__module__ in self.desugar:
                 code = desugared_code(v) or code
-            f = types.FunctionType(code, self.ns[v.__module__], v.__name__, v.__defaults__, v.__closure__)
-            f.__kwdefaults__ = v.__kwdefaults__
+            dflt, kwd = v.__defaults__, v.__kwdefaults__
+            if self.space is not None:
+                # an expression class bound as a default argument (reduction_cls=Reduction) is handed over as its proxy
+                conv = lambda a: self.space.proxy(a) if self.space.is_expr_class(a) else a  # noqa: E731
+                dflt = tuple(conv(a) for a in dflt) if dflt else dflt
+                kwd = {k: conv(a) for k, a in kwd.items()} if kwd else kwd
+            f = types.FunctionType(code, self.ns[v.__module__], v.__name__, dflt, v.__closure__)
+            f.__kwdefaults__ = kwd
             f.__qualname__ = v.__qualname__
             f.__doc__ = v.__doc__
             f.__dict__.update(v.__dict__)
